@@ -100,3 +100,76 @@ func VerifHarness_C10_O1() {
 }
 
 var _ = peers.NewPeer
+
+
+// C10/O1b — successive changes inside one six-round window: a first accepted
+// join (outsider 6) committed at round-received rr0 is pending (effective at
+// rr0+6) when a second batch of receipts is processed at a symbolic
+// round-received rr1 with rr0 < rr1.  The second set must be the fold over the
+// LATEST recorded set (which already contains the first change), stored at
+// rr1+6, and the first record must not be altered after the fact.
+func VerifHarness_C10_O1b() {
+	vc := verifNewCore(3, 0)
+	c := vc.c
+	rr0 := 2
+	first := hg.NewInternalTransaction(hg.PEER_ADD, *verifPeer(6))
+	if err := c.processAcceptedInternalTransactions(rr0, []hg.InternalTransactionReceipt{{InternalTransaction: first, Accepted: true}}); err != nil {
+		panic(err)
+	}
+	firstSet, _ := vc.store.GetPeerSet(rr0 + 6)
+	firstKeys := []string{}
+	for _, p := range firstSet.Peers {
+		firstKeys = append(firstKeys, p.PubKeyHex)
+	}
+	rr1 := verifNondetInt("roundReceived1")
+	verifAssume(rr1 > rr0 && rr1 < 1<<40)
+	typ := verifChoice("type", 2)
+	who := []int{1, 5, 6}[verifChoice("peer", 3)]
+	p := verifPeer(who)
+	itx := hg.NewInternalTransaction(hg.TransactionType(typ), *p)
+	expect := append([]string{}, firstKeys...)
+	present := -1
+	for k, h := range expect {
+		if h == p.PubKeyHex {
+			present = k
+		}
+	}
+	if typ == 0 && present < 0 {
+		expect = append(expect, p.PubKeyHex)
+	}
+	if typ == 1 && present >= 0 {
+		expect = append(append([]string{}, expect[:present]...), expect[present+1:]...)
+	}
+	err := c.processAcceptedInternalTransactions(rr1, []hg.InternalTransactionReceipt{{InternalTransaction: itx, Accepted: true}})
+	if rr1 == rr0 {
+		verifAssert("unreachable", false)
+	}
+	verifAssert("second-change-accepted", err == nil)
+	set, gerr := vc.store.GetPeerSet(rr1 + 6)
+	verifAssert("second-change-stored-at-its-own-effective-round", gerr == nil && set == c.validators)
+	same := gerr == nil && len(set.Peers) == len(expect)
+	if same {
+		for k := range expect {
+			if set.Peers[k].PubKeyHex != expect[k] {
+				same = false
+			}
+		}
+	}
+	verifAssert("second-set-is-fold-over-latest-recorded-set", same)
+	// the first record is still what it was
+	again, _ := vc.store.GetPeerSet(rr0 + 6)
+	if rr1 != rr0 {
+		firstStill := again == firstSet && len(again.Peers) == len(firstKeys)
+		if firstStill {
+			for k := range firstKeys {
+				if again.Peers[k].PubKeyHex != firstKeys[k] {
+					firstStill = false
+				}
+			}
+		}
+		if rr1+6 > rr0+6 {
+			verifAssert("earlier-record-not-altered-after-the-fact", firstStill)
+		}
+	}
+	verifReach("end")
+}
